@@ -22,10 +22,15 @@ CONSTANTS MaxTok,     \* tokens per Huffman block
           RepZero,    \* allow code 16 (repeat previous length) right after a zero length
                       \* (legal; the library under test rejects most such headers)
           Mode        \* "mixed": anything goes; "far": a long stored block first, then dynamic
-                      \* blocks whose far distance symbols get the longest codes
+                      \* blocks whose far distance symbols get the longest codes; "twin": a
+                      \* dynamic block with one unused length symbol of HLIT slack and only the
+                      \* distances 1..3, then the block with the same code length sequence and
+                      \* the same token bits read under the split HLIT-1 / HDIST+1 (every
+                      \* distance one larger): what a header means depends on HLIT and HDIST,
+                      \* not on the code length sequence alone
 
-VARIABLES fields, toks, blocks, outpos, bitpos, phase, btype, nblk, fin, feat, tailn, modes
-vars == <<fields, toks, blocks, outpos, bitpos, phase, btype, nblk, fin, feat, tailn, modes>>
+VARIABLES fields, toks, blocks, outpos, bitpos, phase, btype, nblk, fin, feat, tailn, modes, twin
+vars == <<fields, toks, blocks, outpos, bitpos, phase, btype, nblk, fin, feat, tailn, modes, twin>>
 
 \* pseudo-random bytes as a deterministic function of one random seed (function
 \* literals are evaluated lazily, so they must not contain random draws)
@@ -107,13 +112,14 @@ DistLo      == << 1, 2, 5, 257, 4097 >>
 
 Init == /\ fields = <<>> /\ toks = <<>> /\ blocks = <<>> /\ outpos = 0 /\ bitpos = 0
         /\ phase = "hdr" /\ btype = 0 /\ nblk = 0 /\ fin = 0 /\ feat = {} /\ tailn = 0 /\ modes = {}
+        /\ twin = <<>>
 
 \* block type: stored (0), fixed (1), dynamic (2)
-BlockTypes == IF Mode = "far" THEN (IF nblk = 0 THEN {0} ELSE {2}) ELSE {0, 1, 2}
-StartBlock == /\ phase = "hdr" /\ nblk < MaxBlk
+BlockTypes == IF Mode = "far" THEN (IF nblk = 0 THEN {0} ELSE {2}) ELSE IF Mode = "twin" THEN {2} ELSE {0, 1, 2}
+StartBlock == /\ phase = "hdr" /\ nblk < MaxBlk /\ twin = <<>>
               /\ \E t \in BlockTypes : btype' = t /\ phase' = (IF t = 0 THEN "stored" ELSE "tok")
               /\ toks' = <<>> /\ nblk' = nblk + 1
-              /\ UNCHANGED <<fields, blocks, outpos, bitpos, fin, feat, tailn, modes>>
+              /\ UNCHANGED <<fields, blocks, outpos, bitpos, fin, feat, tailn, modes, twin>>
 
 FinalFlag(f) == (nblk = MaxBlk => f = 1)
 
@@ -133,7 +139,7 @@ EmitStored2(f, padbits, padv, n, big, seed, fs) ==
   /\ outpos' = outpos + n
   /\ feat' = feat \cup (IF padv # 0 THEN {"stored-pad"} ELSE {}) \cup (IF n = 0 THEN {"stored-empty"} ELSE {})
   /\ fin' = f /\ phase' = IF f = 1 THEN "eof" ELSE "hdr"
-  /\ UNCHANGED <<toks, btype, nblk, tailn, modes>>
+  /\ UNCHANGED <<toks, btype, nblk, tailn, modes, twin>>
 EmitStored(f, padbits, padv, n, big, seed) ==
   EmitStored2(f, padbits, padv, n, big, seed, StoredBody(f, padbits, padv, n, big, seed))
 Stored == /\ phase = "stored"
@@ -149,24 +155,24 @@ Stored == /\ phase = "stored"
 LitTok == /\ phase = "tok" /\ Len(toks) < MaxTok
           /\ \E c \in {0..143, 144..255} : toks' = Append(toks, Lit(Rnd(c)))
           /\ outpos' = outpos + 1
-          /\ UNCHANGED <<fields, blocks, bitpos, phase, btype, nblk, fin, feat, tailn, modes>>
+          /\ UNCHANGED <<fields, blocks, bitpos, phase, btype, nblk, fin, feat, tailn, modes, twin>>
 
 RefTok == /\ phase = "tok" /\ Len(toks) < MaxTok /\ outpos > 0
-          /\ \E lc \in 1..5, dc \in (IF Mode = "far" THEN 4..5 ELSE 1..5) :
+          /\ \E lc \in (IF Mode = "twin" THEN 1..4 ELSE 1..5), dc \in (IF Mode = "far" THEN 4..5 ELSE IF Mode = "twin" THEN 1..2 ELSE 1..5) :
                /\ DistLo[dc] <= outpos
                /\ \E l \in {Rnd(LenClasses[lc])} :
-                  \E d \in {Rnd({x \in DistClasses[dc] : x <= outpos})} :
+                  \E d \in {Rnd({x \in DistClasses[dc] : x <= outpos /\ (Mode = "twin" => x <= 3)})} :
                   \E irr \in {l = 258 /\ Coin(2)} :
                      /\ toks' = Append(toks, Ref(l, d, irr))
                      /\ outpos' = outpos + l
                      /\ feat' = feat \cup (IF irr THEN {"irr258"} ELSE {})
-          /\ UNCHANGED <<fields, blocks, bitpos, phase, btype, nblk, fin, tailn, modes>>
+          /\ UNCHANGED <<fields, blocks, bitpos, phase, btype, nblk, fin, tailn, modes, twin>>
 
 \* a Huffman block may be empty (end-of-block code only)
 EndBlock == /\ phase = "tok"
             /\ \E f \in {0, 1} : FinalFlag(f) /\ fin' = f
             /\ phase' = "emit"
-            /\ UNCHANGED <<fields, toks, blocks, outpos, bitpos, btype, nblk, feat, tailn, modes>>
+            /\ UNCHANGED <<fields, toks, blocks, outpos, bitpos, btype, nblk, feat, tailn, modes, twin>>
 
 UsedLit  == {256} \cup {LitLenSym(toks[i]) : i \in 1..Len(toks)}
 UsedDist == {DistSym(toks[i]) : i \in {j \in 1..Len(toks) : toks[j].k = "R"}}
@@ -216,19 +222,47 @@ EmitBlock ==
      ELSE
         \E lmode \in { Rnd(LitModes) } :
         \E dmode \in { Rnd(DistModes) } :
-        \E UL \in { Extra(PadLit(UsedLit), 0..285) } :
-        \E UD \in { Extra(PadDist(UsedDist), 0..29) } :
+        \E UL \in { Extra(PadLit(UsedLit), IF Mode = "twin" THEN 0..283 ELSE 0..285) } :
+        \E UD \in { Extra(PadDist(UsedDist), IF Mode = "twin" THEN 0..27 ELSE 0..29) } :
         \E llen \in { LitLens(lmode, UL) } :
         \E dlen \in { DistLens(dmode, UD) } :
-        \E hlit \in { Rnd(Max(257, SetMax({s \in 0..285 : llen[s] > 0}) + 1)..286) } :
-        \E hdist \in { Rnd((SetMax({s \in 0..29 : dlen[s] > 0} \cup {0}) + 1)..30) } :
+        \E hlit \in { IF Mode = "twin" THEN Min(286, Max(257, SetMax({s \in 0..285 : llen[s] > 0}) + 1) + 1)
+                       ELSE Rnd(Max(257, SetMax({s \in 0..285 : llen[s] > 0}) + 1)..286) } :
+        \E hdist \in { IF Mode = "twin" THEN SetMax({s \in 0..29 : dlen[s] > 0} \cup {0}) + 1
+                        ELSE Rnd((SetMax({s \in 0..29 : dlen[s] > 0} \cup {0}) + 1)..30) } :
         \E dh \in { DynHeader(llen, dlen, hlit, hdist) } :
           /\ EmitDyn(llen, dlen, hlit, hdist, dh,
                      HeaderFields(fin, 2) \o dh.fields \o BlockBody(toks, Canon(llen), llen, Canon(dlen), dlen))
           /\ modes' = modes \cup {<<"lit", lmode>>, <<"dist", dmode>>}
-  /\ (btype = 1 => modes' = modes)
+          /\ twin' = IF Mode = "twin" /\ fin = 0 /\ llen[hlit - 1] = 0 /\ hdist <= 29 /\ outpos >= 4
+                     THEN << [llen |-> llen, dlen |-> dlen, hlit |-> hlit, hdist |-> hdist, dh |-> dh, toks |-> toks] >>
+                     ELSE <<>>
+  /\ (btype = 1 => modes' = modes /\ twin' = <<>>)
   /\ phase' = IF fin = 1 THEN "eof" ELSE "hdr"
   /\ UNCHANGED <<toks, outpos, btype, nblk, fin, tailn>>
+
+\* the twin of the dynamic block just written: same code length items, same code length code,
+\* same literal/length code, the distance code moved up by one symbol, HLIT one less, HDIST one more
+ShiftDist(t) == IF t.k = "R" THEN Ref(t.l, t.d + 1, t.irr) ELSE t
+RECURSIVE PlainLen(_, _)
+PlainLen(ts, i) == IF i > Len(ts) THEN 0 ELSE (IF ts[i].k = "R" THEN ts[i].l ELSE 1) + PlainLen(ts, i + 1)
+TwinEmit(w, toks2, dlen2, f) ==
+  \E fs \in { HeaderFields(f, 2)
+               \o DynFields(w.hlit - 1, w.hdist + 1, w.dh.hclen, w.dh.cl, Canon(w.dh.cl), w.dh.items)
+               \o BlockBody(toks2, Canon(w.llen), w.llen, Canon(dlen2), dlen2) } :
+    /\ fields' = fields \o fs /\ bitpos' = bitpos + BitLen(fs)
+    /\ blocks' = Append(blocks, [type |-> 2, final |-> f, toks |-> toks2, pad |-> 0, data |-> <<>>,
+                                 hlit |-> w.hlit - 1, hdist |-> w.hdist + 1, hclen |-> w.dh.hclen,
+                                 cl |-> [k \in 1..19 |-> w.dh.cl[k - 1]], items |-> w.dh.items])
+    /\ outpos' = outpos + PlainLen(toks2, 1)
+    /\ toks' = toks2 /\ fin' = f /\ phase' = IF f = 1 THEN "eof" ELSE "hdr"
+TwinBlock ==
+  /\ phase = "hdr" /\ twin # <<>>
+  /\ \E f \in {IF nblk + 1 >= MaxBlk THEN 1 ELSE Rnd({0, 1})} :
+       TwinEmit(twin[1], [i \in 1..Len(twin[1].toks) |-> ShiftDist(twin[1].toks[i])],
+                [s \in 0..29 |-> IF s = 0 THEN 0 ELSE twin[1].dlen[s - 1]], f)
+  /\ nblk' = nblk + 1 /\ twin' = <<>> /\ feat' = feat \cup {"twin-split"}
+  /\ UNCHANGED <<btype, tailn, modes>>
 
 \* padding bits of the last byte (any value) and optional trailing garbage
 Eof == /\ phase = "eof"
@@ -241,9 +275,9 @@ Eof == /\ phase = "eof"
             /\ tailn' = ntail
             /\ bitpos' = bitpos + padbits
        /\ phase' = "done"
-       /\ UNCHANGED <<toks, blocks, outpos, btype, nblk, fin, modes>>
+       /\ UNCHANGED <<toks, blocks, outpos, btype, nblk, fin, modes, twin>>
 
-Next == StartBlock \/ Stored \/ LitTok \/ RefTok \/ EndBlock \/ EmitBlock \/ Eof
+Next == StartBlock \/ Stored \/ LitTok \/ RefTok \/ EndBlock \/ EmitBlock \/ TwinBlock \/ Eof
 Spec == Init /\ [][Next]_vars
 
 TokJ(t) == IF t.k = "L" THEN <<0, t.v, 0, 0>> ELSE <<1, t.l, t.d, IF t.irr THEN 1 ELSE 0>>
